@@ -339,9 +339,26 @@ func damageArtefact(raw []byte, fmtName string, toks []sealedTok, dmg []ctnDamag
 				if len(blocks) > 1 {
 					raw = append(append(append([]byte{}, raw[:hEnd]...), raw[blocks[0].end:]...), raw[blocks[0].start:blocks[0].end]...)
 				}
-			case "foreigncid":
+			case "foreigncid", "foreignhash", "cidident", "cidhash2":
 				data := raw[blocks[k].dataStart:blocks[k].end]
-				raw = append(append(append([]byte{}, raw[:blocks[k].start]...), carSection(rawCid(data), data)...), raw[blocks[k].end:]...)
+				var nc cid.Cid
+				switch d.C {
+				case "foreigncid":
+					nc = rawCid(data)
+				case "foreignhash": // another hash function, correct digest
+					h, _ := multihash.Sum(data, multihash.SHA2_512, -1)
+					nc = cid.NewCidV1(cid.DagCBOR, h)
+				case "cidhash2": // another hash function, digest of something else
+					h, _ := multihash.Sum(append([]byte("x"), data...), multihash.SHA2_512, -1)
+					nc = cid.NewCidV1(cid.DagCBOR, h)
+				case "cidident": // identity multihash: the "digest" is arbitrary content, not the data
+					ids := [][]byte{[]byte("hello"), {}, data[:8]}
+					h, _ := multihash.Sum(ids[k%len(ids)], multihash.IDENTITY, -1)
+					nc = cid.NewCidV1(cid.DagCBOR, h)
+				}
+				raw = append(append(append([]byte{}, raw[:blocks[k].start]...), carSection(nc, data)...), raw[blocks[k].end:]...)
+			case "secondwrite":
+				// history, handled by the replay itself
 			default:
 				return nil, false, fmt.Errorf("unknown CAR damage %q", d.C)
 			}
@@ -396,6 +413,8 @@ func damageArtefact(raw []byte, fmtName string, toks []sealedTok, dmg []ctnDamag
 				nodes = append(nodes, nodes[k])
 			case "reorder":
 				nodes = append(nodes[1:], nodes[0])
+			case "secondwrite":
+				reenc = false
 			default:
 				return nil, false, fmt.Errorf("unknown CBOR damage %q", d.C)
 			}
@@ -413,6 +432,7 @@ func init() {
 	replays["container"] = func(cases []json.RawMessage, rep *Report) error {
 		w := newWorld(envSeed(), fastAlgs)
 		tokCache := map[int][]sealedTok{}
+		var others []sealedTok
 		for _, raw := range cases {
 			var c ctnCase
 			if err := json.Unmarshal(raw, &c); err != nil {
@@ -439,11 +459,35 @@ func init() {
 				rep.violation(json.RawMessage(raw), "written", err.Error(), "writing an undamaged container failed")
 				continue
 			}
-			harmful := false
+			harmful, clobbered := false, false
 			for _, d := range c.Dmg {
 				if d.Kind != "benign" {
 					harmful = true
 				}
+				if d.C == "secondwrite" {
+					// another container (other tokens, another size) is serialized with the same writer variant after the
+					// first one; what the first call returned must still be what it returned
+					snapshot := append([]byte{}, data...)
+					if others == nil {
+						if others, err = makeTokens(newWorld(envSeed()+7, fastAlgs), 2, 40); err != nil {
+							return err
+						}
+					}
+					if _, err := writeContainer(others, []int{1, 2}, c.Fmt, c.B64, c.WV); err != nil {
+						return err
+					}
+					if _, err := writeContainer(others, []int{2}, c.Fmt, c.B64, c.WV); err != nil {
+						return err
+					}
+					if !bytes.Equal(snapshot, data) {
+						rep.violation(json.RawMessage(raw), "the bytes returned by the first call", "changed by a later call",
+							fmt.Sprintf("the %s container bytes (base64=%v, writer %s) returned earlier were overwritten by a later serialization", c.Fmt, c.B64, c.WV))
+						clobbered = true
+					}
+				}
+			}
+			if clobbered {
+				continue
 			}
 			if harmful {
 				rep.nontrivial(string(raw))
